@@ -483,10 +483,50 @@ func (g *Gen) scenario(steps int) {
 					writes++
 				}
 			}
+			if g.r.Chance(1, 7) {
+				// a client meets a node on which the row of one key cannot be read (race.go): a key the last program
+				// touched or any key; its program reads / overwrites that key or is a random one
+				b, k := 1, g.r.Intn(6)
+				if g.r.Chance(1, 4) {
+					b = 2
+				}
+				var pr string
+				switch g.r.Intn(4) {
+				case 0:
+					pr = g.prog()
+				case 1:
+					pr = fmt.Sprintf("put k%d %d", k, 2+g.r.Intn(8))
+				case 2:
+					pr = fmt.Sprintf("get k%d;put k%d %d;", k, k, 2+g.r.Intn(8)) + g.prog()
+				default:
+					pr = fmt.Sprintf("del k%d;", k) + g.prog()
+				}
+				if b == 2 {
+					pr = fmt.Sprintf("call put k%d %d;", k, 2+g.r.Intn(8)) + pr
+				}
+				g.do(fmt.Sprintf("fault %d:%d pre %s", b, k, pr))
+			}
 		case x < 8:
 			// two pre-executions over the same state, committed one after the other: the second one may be stale
-			g.do("pre a " + g.prog())
-			g.do("pre b " + g.prog())
+			pa, pb := g.prog(), g.prog()
+			forced := g.r.Chance(2, 5)
+			if forced {
+				// both read and overwrite one key (top-level bucket), whatever else they do
+				k := g.key()
+				pa = fmt.Sprintf("get %s;put %s %d;", k, k, 2+g.r.Intn(8)) + pa
+				pb = fmt.Sprintf("put %s %d;", k, 2+g.r.Intn(8)) + pb
+			}
+			g.do("pre a " + pa)
+			g.do("pre b " + pb)
+			// the two submitted at the same time, on a copy of the node (race.go)
+			if forced || g.r.Chance(1, 4) {
+				g.do("race a b")
+			} else if g.r.Chance(1, 4) {
+				g.do("race b a")
+			}
+			if g.r.Chance(1, 8) {
+				g.do(fmt.Sprintf("fault %d:%d commit a", 1+g.r.Intn(2), g.r.Intn(6)))
+			}
 			g.txid++
 			if g.do(fmt.Sprintf("commit b %d", g.txid)) == "accept" {
 				accepted++
